@@ -68,6 +68,7 @@ type Interp struct {
 	spec    *specState
 	syncMaps map[*Value]*Map
 	fs       *memFS
+	sched    *scheduler
 }
 
 type methodKey struct {
@@ -976,6 +977,11 @@ func (in *Interp) callSSA(caller *frame, fn *ssa.Function, args []Value, env []V
 		}
 		if st, ok := in.cfg.stubFor(name); ok {
 			return in.runStub(caller, fn, st, args)
+		}
+		if in.sched != nil {
+			if r, handled := in.sched.intercept(name, caller, fn, args, intrinsics[name]); handled {
+				return r
+			}
 		}
 		if ix, ok := intrinsics[name]; ok {
 			if r, handled := ix(in, caller, fn, args); handled {
